@@ -117,6 +117,13 @@ func summary(h string, st *interp.Stats) {
 		}
 		fmt.Printf("    INCONCLUSIVE x%d %s\n", n, m)
 	}
+	if st.InconExample != "" {
+		ex := st.InconExample
+		if len(ex) > 3000 {
+			ex = ex[:3000]
+		}
+		fmt.Println("    EXAMPLE:", ex)
+	}
 	for _, e := range st.SolverErrors {
 		fmt.Printf("    SOLVER-ERROR %s\n", e)
 	}
